@@ -109,7 +109,7 @@ Section Rig.
                              | None => [30] end) (pc m))
     ++ codes [(31, pc_alive m);
               (32, forallb (fun o => match heap m !! o with Some _ => true | None => false end) (dead m));
-              (50, Nat.eqb (length (slots m)) nslots && Nat.eqb (length (wslots m)) nslots);
+              (50, Nat.eqb (length (slots m)) nslots && Nat.eqb (length (wslots m)) nslots && Nat.eqb (length (cslots m)) nslots);
               (61, forallb (wtgt_nomap m) (wslots m) && forallb (fun w => wtgt_nomap m (Some w)) (wparam m));
               (62, forallb (fun c => match c with Some cr => match heap m !! cr_map cr with Some _ => true | None => false end | None => true end) (cslots m))]
     ++ concat (imap (fun v a => match a with
